@@ -298,7 +298,9 @@ def show(st, ex, v):
     v = obj(st, v)
     if 'discr' not in st.heap[v.oid]: return ('opaque', origin(st, v))
     if st.meta[v.oid][1] != 'JsonValue' and 'JsonValue' not in str(st.meta[v.oid][1]): return ('opaque', origin(st, v))
-    d = cval(ex.discr(st, v).t); name = ex.enums['JsonValue'][d]
+    d = cval(ex.discr(st, v).t)
+    if d is None or d >= len(ex.enums['JsonValue']): return ('symbolic-variant', origin(st, v))
+    name = ex.enums['JsonValue'][d]
     if name == 'Array': return ('array', [origin(st, x) for x in model(st, st.heap[v.oid][('f', 'Array', 0)])])
     if name == 'Object': return ('object', [(origin(st, k), origin(st, x)) for k, x in model(st, st.heap[v.oid][('f', 'Object', 0)])])
     if name == 'String': return ('string', [b.t for b in model(st, st.heap[v.oid][('f', 'String', 0)])])
@@ -353,6 +355,7 @@ KERNELS = {
     'put': (r'(^|::)put::get::\{closure#0\}::<impl at [^>]*>::get$', 'put', None),
     'keys': (r'(^|::)keys::get::\{closure#0\}::<impl at [^>]*>::get$', 'keys', None),
     'values': (r'(^|::)values::get::\{closure#0\}::<impl at [^>]*>::get$', 'values', None),
+    'default': (r'flow::default::get::\{closure#0\}::<impl at [^>]*>::get$|(^|::)default::get::\{closure#0\}::<impl at [^>]*>::get$', 'default', None),
     'head': (r'head::get::\{closure#0\}::<impl at [^>]*>::get$', 'str+N', ref_take),
     'tail': (r'tail::get::\{closure#0\}::<impl at [^>]*>::get$', 'str+N', lambda k, e: [(N == i, e[i:]) for i in range(k)] + [(z3.UGE(N, k), e)] if False else [(N == i, e[i:]) for i in range(k + 1)] + [(z3.UGT(N, k), e)]),
 }
@@ -388,6 +391,8 @@ def kernels(ctx, names=None, strings=True):
             shapes = [('number', 0), ('array', 1), ('string', 1)]
         elif kind in ('put', 'keys', 'values'):
             shapes = [('object', k) for k in range(K + 1)] + [('array', 1), ('number', 0)]
+        elif kind == 'default':
+            shapes = [('dflt', i) for i in range(8)]
         for shape, k in shapes:
             for absent_count in ((False, True) if '+N' in kind and k == 1 and shape != 'number' else (False,)):
                 sbytes = [z3.BitVec(f's{i}', 8) for i in range(k)] if shape == 'string' else []
@@ -398,6 +403,12 @@ def kernels(ctx, names=None, strings=True):
                     return mk_num(st, ex, z3.BitVec('A0', 64))
                 table = {0: a0}
                 variants_extra = [None]
+                if kind == 'default':
+                    # G0, G1: nothing (bit clear) or an explicit null (bit set); G2: a value or nothing
+                    table = {}
+                    if k & 1: table[0] = lambda st, ex: jv(st, ex, 'Null')
+                    if k & 2: table[1] = lambda st, ex: jv(st, ex, 'Null')
+                    if k & 4: table[2] = lambda st, ex: named(st, 'VALUE2', 'JsonValue')
                 if '+N' in kind and not absent_count: table[1] = lambda st, ex: mk_num(st, ex, N)
                 if kind == 'index' and shape == 'array': table[1] = lambda st, ex: mk_num(st, ex, N)
                 if kind == 'range' and shape == 'number': table[0] = lambda st, ex: mk_num(st, ex, N)
@@ -414,7 +425,7 @@ def kernels(ctx, names=None, strings=True):
                   ex = ctx.exec(summaries=make_summaries(table), inline=[(r'<NumberValue as TryInto<usize>>::try_into$', r'^$')] if False else [], max_visits=4 * K + 12)
                   F = ex.find(body_rx)
                   st = State(); so = named(st, 'self', 'Impl'); selfref = slot(st, so, 'self*'); c = slot(st, named(st, 'ctx', 'Context'), 'ctx*')
-                  nargs = 1 + ('+N' in kind) + ('+M' in kind) + ('+X' in kind) + (kind == 'index') + 2 * (kind == 'put')
+                  nargs = 1 + ('+N' in kind) + ('+M' in kind) + ('+X' in kind) + (kind == 'index') + 2 * (kind == 'put') + 2 * (kind == 'default')
                   st.heap[so.oid][('f', None, 0)] = seqobj(st, 'Vec', [named(st, f'G{i}', 'Rc<dyn Get>') for i in range(nargs)], origin='self.0')
                   if shape == 'string' and sbytes: st.pc.append(utf8_valid(sbytes))
                   st.pc.append(z3.ULE(N, LIM if kind != 'range' else 4)); st.pc.append(z3.ULE(M_, LIM))
@@ -449,6 +460,13 @@ def kernels(ctx, names=None, strings=True):
                       if wrong_type or absent_count:
                           if got is None: fam.discharged += 1
                           else: cand('ill-typed-not-nothing', f'gives {got[0]} instead of nothing for an ill-typed / absent argument', ex.valid(d, z3.BoolVal(False))[1])
+                          continue
+                      if kind == 'default':
+                          # the first argument that yields a value - an explicit null is a value - is the result
+                          first = 0 if k & 1 else 1 if k & 2 else 2 if k & 4 else None
+                          exp = None if first is None else ('null',) if first < 2 else ('opaque', 'VALUE2')
+                          if got == exp: fam.discharged += 1
+                          else: cand('wrong-result:default', f'arguments (G0, G1: {"null" if k & 1 else "nothing"}, {"null" if k & 2 else "nothing"}; G2: {"a value" if k & 4 else "nothing"}) give {got}, expected {exp}', ex.valid(d, z3.BoolVal(False))[1])
                           continue
                       if kind in ('sizeof', 'index', 'range', 'put', 'keys', 'values'):
                           conj = None; why = None
@@ -569,6 +587,14 @@ def replay_kernels(ctx, cands):
         args = [a0]
         n = mv.get('N', 0); m_ = mv.get('M', 0)
         kind = KERNELS[name][1]
+        if kind == 'default':
+            r = run_jawk(ctx, ['--select', '(default .a "x")=r', '--select', '(default .b .a 3)=s', '--style', 'consise'], b'{"a":null}')
+            exp = {'r': None, 's': None}
+            try: got = json.loads(shw(r['stdout']))
+            except Exception: got = shw(r['stdout'])
+            c.replay = {'argv': ['--select', '(default .a "x")=r', '--select', '(default .b .a 3)=s'], 'stdin': '{"a":null}', 'expected': exp, 'actual': got}
+            c.status = 'reproduced' if got != exp else 'unit'
+            continue
         if kind in ('sizeof', 'index', 'range', 'put', 'keys', 'values'):
             # small concrete demonstrations per kernel (the model's N where it matters)
             DEMOS = {'size': [('(size "h\u00e9llo")', 5), ('(size [1,2,3])', 3), ('(size {"a":1})', 1), ('(size "")', 0)],
@@ -576,6 +602,7 @@ def replay_kernels(ctx, cands):
                      'range': [(f'(range {min(n, 6)})', list(range(min(n, 6)))), ('(range 0)', []), ('(range 3)', [0, 1, 2])],
                      'put': [('(put {"a":1,"b":2} "a" 9)', {'a': 9, 'b': 2}), ('(put {"a":1} "z" 9)', {'a': 1, 'z': 9}), ('(put {} "z" 9)', {'z': 9})],
                      'keys': [('(keys {"b":1,"a":2,"c":3})', ['b', 'a', 'c']), ('(keys {})', [])],
+                     'default': [('(default .a "x")', None)],
                      'values': [('(values {"b":1,"a":2,"c":3})', [1, 2, 3]), ('(values {})', [])]}
             c.status = 'unit'
             for expr, exp in DEMOS[name]:
